@@ -15,7 +15,7 @@ for s in seeds:
     row = {}
     try:
         for c in [s[:3]] + extra.get(s[:3], []):
-            r = subprocess.run(f"VERIF_SCRATCH=1 ./check {c}", shell=True, capture_output=True, text=True)
+            r = subprocess.run(f"VERIF_SCRATCH=1 timeout 1200 ./check {c}", shell=True, capture_output=True, text=True)
             v = [l for l in r.stdout.splitlines() if l.startswith("VIOLATION")]
             row[c] = dict(exit=r.returncode, violations=len(v), first=(v[0].split("obligation=")[-1][:140] if v else None))
     finally:
